@@ -42,6 +42,24 @@ INT_WIDTH = {"u8": 8, "u16": 16, "u32": 32, "u64": 64, "u128": 128, "usize": 64,
              "i8": 8, "i16": 16, "i32": 32, "i64": 64, "i128": 128, "isize": 64}
 
 
+def _closure_diverges(prog, cdef):
+    """the closure body never returns (every path ends in a panic / diverging call)"""
+    b = prog.bodies.get(cdef.id)
+    if b is None:
+        return False
+    seen, work = {0}, [0]
+    while work:
+        bi = work.pop()
+        t = b.term(bi)
+        if t.kind == "ret":
+            return False
+        for s_ in b.succs(bi):
+            if not b.cleanup[s_] and s_ not in seen:
+                seen.add(s_)
+                work.append(s_)
+    return True
+
+
 def short(name):
     """last path segments for display"""
     return name
@@ -295,6 +313,11 @@ class FnView:
                     self._follow(dst, not inverted, want, edges, seen)
                 elif ai == 0 and any(nm.endswith(u) for u in UNWRAP_CALLS[:4]):
                     # unwrap/expect: continuing means Ok/Some
+                    if (want == "ok") != inverted and call.target is not None:
+                        edges.add((bi, call.target))
+                elif ai == 0 and nm.endswith("::unwrap_or_else") and call.cls and \
+                        all(_closure_diverges(self.prog, cd) for cd in call.cls):
+                    # unwrap_or_else(|e| panic!(..)): same as expect
                     if (want == "ok") != inverted and call.target is not None:
                         edges.add((bi, call.target))
 
